@@ -473,3 +473,48 @@ func verifReplayPlannerSorted(t *testing.T, what string, mk func(coll string) *q
 	fmt.Printf("REPLAY PASS scenario: %s: %s with and without an index on %v\n", what, plain, indexed)
 	return true
 }
+
+// Field operands inside In / Contains lists are read from the document (C16, C01): the database layer must
+// evaluate them as a direct Satisfy does.
+func TestVerifReplayInFieldOperand(t *testing.T) {
+	db, err := Open(t.TempDir())
+	if err != nil {
+		t.Fatal(err)
+	}
+	defer db.Close()
+	db.CreateCollection("c")
+	docs := make([]*d.Document, 0)
+	for i := 0; i < 10; i++ {
+		doc := d.NewDocument()
+		doc.Set("x", i)
+		doc.Set("y", i%5)
+		doc.Set("l", []interface{}{i, 100})
+		docs = append(docs, doc)
+		db.InsertOne("c", doc)
+	}
+	failed := 0
+	for _, tc := range []struct {
+		what string
+		c    query.Criteria
+	}{
+		{"x In (Field(y), 7)", query.Field("x").In(query.Field("y"), 7)},
+		{"l Contains (Field(x))", query.Field("l").Contains(query.Field("x"))},
+	} {
+		direct := 0
+		for _, doc := range docs {
+			if tc.c.Satisfy(doc) {
+				direct++
+			}
+		}
+		n, err := db.Count(query.NewQuery("c").Where(tc.c))
+		if n != direct {
+			fmt.Printf("REPLAY FAIL scenario: %s: %d of 10 documents satisfy the criteria directly, the database selects %d (result %v)\n", tc.what, direct, n, err)
+			failed++
+		} else {
+			fmt.Printf("REPLAY PASS scenario: %s: %d documents both ways\n", tc.what, n)
+		}
+	}
+	if failed > 0 {
+		t.Fatal("a field operand inside an In / Contains list is destroyed by criteria normalisation")
+	}
+}
